@@ -322,6 +322,8 @@ func checkFanoutCoordinator(c *Ctx, rule string, b *Body, semNames map[string]bo
 	// (c1) token automaton: a slot is held at every go statement
 	const notHeld, held = 1, 2
 	var goBad []ast.Node
+	var leakBad []ast.Node
+	seenLeak := map[ast.Node]bool{}
 	nGo := 0
 	seenGo := map[ast.Node]bool{}
 	// (c2) done dominated by fill
@@ -334,8 +336,23 @@ func checkFanoutCoordinator(c *Ctx, rule string, b *Body, semNames map[string]bo
 	b.run(flowSpec{
 		entry: notHeld | noFill,
 		node: func(n ast.Node, s uint64) uint64 {
-			if isSemSend(n) {
-				s = (s &^ notHeld) | held
+			if isSemSend(n) || fillCalls[n] {
+				// (c4) a slot still held here was neither handed to a worker nor given back: it is lost, and the fill
+				// that waits for every slot never completes
+				if s&held != 0 && !seenLeak[n] {
+					seenLeak[n] = true
+					leakBad = append(leakBad, n)
+				}
+				if isSemSend(n) && !fillSends[n] {
+					s = (s &^ notHeld) | held
+				}
+			}
+			if len(semReceiveIn(info, n)) > 0 {
+				for _, e := range semReceiveIn(info, n) {
+					if isSemExpr(b, e, semNames) {
+						s = (s &^ held) | notHeld // the slot is given back
+					}
+				}
 			}
 			if fillCalls[n] {
 				s = (s &^ noFill) | filled
@@ -519,6 +536,11 @@ func checkFanoutCoordinator(c *Ctx, rule string, b *Body, semNames map[string]bo
 		c.fail(rule+".slot-before-go", key, p.Pos(goBad[0].Pos()), "a worker goroutine is started on a path where no concurrency slot was taken for it: the final cap-fold fill no longer waits for that worker, so done can be signalled while it still runs")
 	} else {
 		c.ok(rule+".slot-before-go", key, p.Pos(b.Block.Pos()), itoa(nGo)+" go statement(s), each preceded on every path by its own send into the semaphore")
+	}
+	if len(leakBad) > 0 {
+		c.fail(rule+".slot-not-leaked", key, p.Pos(leakBad[0].Pos()), "a concurrency slot is taken on a path where the slot taken before was neither handed to a worker goroutine nor given back (e.g. an item skipped with `continue` after the slot was acquired): the slot is lost, the final fill that takes every slot never completes, and the operation hangs")
+	} else if nGo > 0 {
+		c.ok(rule+".slot-not-leaked", key, p.Pos(b.Block.Pos()), "every slot taken is handed to a worker or given back before the next one is taken")
 	}
 	if len(fillSends) == 0 {
 		c.fail(rule+".done-after-fill", key, p.Pos(b.Block.Pos()), "no `for i := 0; i < cap(sem); i++ { sem <- struct{}{} }` fill loop found: nothing waits for the workers before completion is signalled")
